@@ -34,6 +34,7 @@ class DESim(DS.DimwiseSim):
         self.reuse = reuse
         self.threshold = threshold
         self.snaps = []
+        self.record = True
 
     def build(self):
         from sparseSpACE.spatiallyAdaptiveSingleDimension2 import SpatiallyAdaptiveSingleDimensions2
@@ -56,7 +57,7 @@ class DESim(DS.DimwiseSim):
                                     print_level=100, log_level=100)
         self.sa = SpatiallyAdaptiveSingleDimensions2(a, b, operation=self.op, margin=c["margin"], rebalancing=c["rebalancing"],
                                                      version=c["version"], print_level=100, log_level=100)
-        self.err = SimErrorCalculator(self.rk, p_zero=c["p_zero"], p_tie=c["p_tie"], mode="mix", use_epoch=True)
+        self.err = SimErrorCalculator(self.rk, p_zero=c["p_zero"], p_tie=c["p_tie"], mode="mix", use_epoch=c.get("use_epoch", True))
         self.P = [tuple(0.02 + 0.96 * H(self.rk, "dp", k, d) for d in range(dim)) for k in range(6)]
         return self
 
@@ -64,6 +65,8 @@ class DESim(DS.DimwiseSim):
         return max(len(o) for o in self.containers()) > self.cfg.get("max_intervals", 24)
 
     def after_evaluate(self, sa, ret):
+        if not self.record:
+            return super().after_evaluate(sa, ret)
         s = {k: np.array(v, dtype=float).copy() for k, v in self.op.surpluses.items()}
         sch = sorted((tuple(int(x) for x in cg.levelvector), float(cg.coefficient)) for cg in sa.scheme)
         vals = np.asarray(sa(self.P), dtype=float).copy()
